@@ -24,7 +24,7 @@ APP_ID = 16777251
 
 class C05(Check):
     prop = "C05"
-    quick_runs = 96
+    quick_runs = 192
     thorough_runs = 3000
     run_wall = 600.0
     rule = ("one run = a live node brought to Open, then 1..4 application threads submitting <= 12 uniquely tagged "
